@@ -61,6 +61,9 @@ E12 sibling devices: a device class whose available() is `self.X is not None`
 E13 a device's master file may be None: whoever reads `<device>.device_file`
     tests it before use, or keeps it only from a device whose constructor
     always creates one (WIDTH "LPT2:",40 raised AttributeError; 16399ed3).
+E14 line and jump numbers are packed as uint16 by the tokeniser: the reader
+    that produces them has a bounded digit loop and a cut-off K with
+    min(10^N - 1, 10K + 9) <= 65535 (seeded C01e).
 Not decided: exceptions raised implicitly by arbitrary Python operations
 outside these patterns -- no sound static argument in reach bounds those.
 """
@@ -797,6 +800,57 @@ def check_e13(ctx, rep):
     rep.floor('E13.master-file-tested-before-use', n, 5, 'reads of another object`s device_file')
 
 
+TOKENISER = 'pcbasic/basic/converter/tokeniser.py'
+
+
+def check_e14(ctx, rep):
+    """Line and jump numbers are packed as uint16: the reader that produces them cannot return more than 65535."""
+    rd = ctx.fn(TOKENISER + ':PlainTextStream.read_line_number')
+    loops = [w for w in own_nodes(rd) if isinstance(w, ast.While)]
+    ndig = cut = None
+    for w in loops:
+        t = w.test
+        if isinstance(t, ast.Compare) and len(t.ops) == 1 and isinstance(t.ops[0], ast.Lt) and isinstance(t.left, ast.Name):
+            v = ctx.fold(t.comparators[0])
+            counter = t.left.id
+            incs = [a for a in ast.walk(w) if isinstance(a, ast.AugAssign) and norm(a.target) == counter and isinstance(a.op, ast.Add) and ctx.fold(a.value) == 1]
+            appends = [a for a in ast.walk(w) if isinstance(a, ast.AugAssign) and norm(a.target) == 'word']
+            # each digit appended counts once
+            same_block = all(any(i in blk for i in incs) for blk in [getattr(a, '_parent', None).body if hasattr(getattr(a, '_parent', None), 'body') else [] for a in appends])
+            if not is_unknown(v) and incs and appends and same_block:
+                ndig = v
+        for c in ast.walk(w):
+            if isinstance(c, ast.If) and isinstance(c.test, ast.Compare) and norm(c.test.left) == 'int(word)' and len(c.test.ops) == 1 \
+                    and isinstance(c.test.ops[0], (ast.Gt, ast.GtE)) and any(isinstance(b, ast.Break) for b in c.body):
+                k = ctx.fold(c.test.comparators[0])
+                if not is_unknown(k):
+                    cut = k if isinstance(c.test.ops[0], ast.Gt) else k - 1
+    rep.ob('E14.line-number-fits-uint16', 'read_line_number: digit loop is bounded (`while counter < N`, one count per digit)', ndig is not None,
+           'no bounded digit loop recognised', ctx.where(rd))
+    bound = None
+    if ndig is not None:
+        bound = 10 ** ndig - 1
+        if cut is not None:
+            bound = min(bound, 10 * cut + 9)
+    rep.ob('E14.line-number-fits-uint16', 'read_line_number: largest number it can return is at most 65535',
+           bound is not None and bound <= 0xffff,
+           'at most %s digits, further digits only while the number read so far is <= %s: it can return up to %s, and the tokeniser packs it with struct.pack(\'<H\'): struct.error'
+           % (ndig, cut, bound), ctx.where(rd))
+    rets = [r for r in own_nodes(rd) if isinstance(r, ast.Return) and r.value is not None and not (isinstance(r.value, ast.Constant) and r.value.value is None)]
+    rep.ob('E14.line-number-fits-uint16', 'read_line_number returns int(word) only', bool(rets) and all(norm(r.value) == 'int(word)' for r in rets),
+           '', ctx.where(rd))
+    n = 0
+    for name in ('Tokeniser._tokenise_line_number', 'Tokeniser._tokenise_jump_number'):
+        fn = ctx.fn(TOKENISER + ':' + name)
+        for c in own_nodes(fn):
+            if isinstance(c, ast.Call) and norm(c.func) == 'struct.pack' and len(c.args) == 2 and ctx.fold(c.args[0]) == '<H':
+                n += 1
+                src = [a for a in own_nodes(fn) if isinstance(a, ast.Assign) and norm(a.targets[0]) == norm(c.args[1])]
+                rep.ob('E14.line-number-fits-uint16', '%s: packed value comes from read_line_number' % name,
+                       len(src) == 1 and norm(src[0].value) == 'ins.read_line_number()', '', ctx.where(c))
+    rep.floor('E14.line-number-fits-uint16', n, 2, 'uint16 packs of line numbers in the tokeniser')
+
+
 RUNS_BASIC = ('self._store_line', 'self.interpreter.loop', 'self.parser.parse_expression', 'self.tokeniser.tokenise_line',
               'self._auto_step', 'self._show_prompt', 'self.console.read_line')
 
@@ -823,6 +877,7 @@ def check(ctx, rep):
     check_e11(ctx, rep)
     check_e12(ctx, rep)
     check_e13(ctx, rep)
+    check_e14(ctx, rep)
     check_e1(ctx, rep)
     check_e2(ctx, rep)
     check_e3(ctx, rep)
@@ -880,6 +935,12 @@ def variants(ctx):
            in_fn('Files.width_', lambda fn: mu.remove_stmt(fn, lambda st: isinstance(st, ast.If) and norm(st.test) == 'dev is None')), expect='E13'),
         Va('lpt1-without-default-stream', 'break', 'pcbasic/basic/devices/files.py',
            in_fn('Files._init_devices', lambda fn: mu.replace_expr(fn, mu.text_is('devicebase.nullstream()'), 'None')), expect='E13'),
+        Va('line-number-cutoff-one-higher', 'break', TOKENISER,
+           in_fn('PlainTextStream.read_line_number', lambda fn: mu.replace_expr(fn, lambda n: isinstance(n, ast.Constant) and n.value == 6552, '6553')), expect='E14'),
+        Va('line-number-six-digits', 'break', TOKENISER,
+           in_fn('PlainTextStream.read_line_number', lambda fn: mu.replace_expr(fn, mu.text_is('int(word) > 6552'), 'int(word) > 65529')), expect='E14'),
+        Va('neutral-line-number-cutoff-as-gte', 'neutral', TOKENISER,
+           in_fn('PlainTextStream.read_line_number', lambda fn: mu.replace_expr(fn, mu.text_is('int(word) > 6552'), 'int(word) >= 6553'))),
         Va('neutral-try-widened', 'neutral', INTERP,
            in_fn('Interpreter.iterate_loop', lambda fn: mu.replace_expr(fn, lambda n: isinstance(n, ast.Name) and n.id == 'OverflowError', 'ArithmeticError'))),
     ]
